@@ -6,6 +6,7 @@ import (
 	"fmt"
 	"net/http"
 	"net/http/httptest"
+	"sort"
 	"strings"
 
 	admissionv1 "k8s.io/api/admission/v1"
@@ -15,9 +16,11 @@ import (
 	corev1listers "k8s.io/client-go/listers/core/v1"
 	"k8s.io/client-go/rest"
 	"k8s.io/client-go/tools/cache"
+	compbasemetrics "k8s.io/component-base/metrics"
 	"k8s.io/pod-security-admission/admission"
 	admissionapi "k8s.io/pod-security-admission/admission/api"
 	"k8s.io/pod-security-admission/api"
+	"k8s.io/pod-security-admission/metrics"
 	"k8s.io/pod-security-admission/policy"
 	pstest "k8s.io/pod-security-admission/test"
 )
@@ -466,4 +469,145 @@ func c20AfterSwitchHistory(c *Ctx, ev *recEvaluator, fx []pstest.VerifFixture) {
 		fixtureProperty(c, fresh, f, []int{f.Minor}, " (after the user-namespace relaxation was switched on and off again; fresh evaluator)")
 	}
 	c.Tag("c20.afterSwitchHistory")
+}
+
+// ---- round 15
+
+// c08FutureVersions: audit and warn policies pinned to a version NEWER than the newest the library knows (v1.33, v1.99, …: legal,
+// and what a namespace labelled for a newer cluster carries) — they are judged with the newest checks, so a violating pod or
+// controller is warned about and annotated exactly as at `latest`; the model's answer decides.
+func c08FutureVersions(c *Ctx) {
+	oracle := func(a *AdmitCase, g AdmitOut) {
+		c08Oracle(a, g)
+		plainEvaluatorAgrees(c, a, g)
+	}
+	admitSweep(c, sizes(c, 300, 5000), AdmitKnobs{FaultPct: 0, SynPct: 0, SubPct: 0}, "allowed warnings audit evalCalls", "allowed nwarnings auditPresence", oracle, func(r *Rng, a *AdmitCase) {
+		if a.Res == "namespaces" || a.Obj.Pod == nil {
+			return
+		}
+		future := pick(r, []string{"v1.33", "v1.34", "v1.99", "v1.1000", "v1.123456"})
+		lv := pick(r, []string{"baseline", "restricted"})
+		a.NSLabels = map[string]string{api.EnforceLevelLabel: pick(r, []string{"privileged", "baseline"}), api.AuditLevelLabel: lv, api.AuditVersionLabel: future,
+			api.WarnLevelLabel: pick(r, []string{"baseline", "restricted"}), api.WarnVersionLabel: pick(r, []string{future, "v1.40", "latest"})}
+		if r.Chance(1, 3) {
+			a.Obj.Pod.Spec.HostNetwork = true
+		}
+		a.ExNS, a.ExUsers, a.ExRC = nil, nil, nil
+		a.Tags = append(a.Tags, "c08.futureVersion")
+	})
+}
+
+// c18RecordBeforeRegister: a recorder that is used before it is registered (an embedder that builds the controller first and
+// wires the registry afterwards; a request arriving during start-up). What is recorded before registration has nowhere to go;
+// everything recorded AFTER registration must be counted — including the label combinations the recorder pre-resolves.
+func c18RecordBeforeRegister(c *Ctx) {
+	for _, serverMinor := range []int{25, 32, 40} {
+		rec := metrics.NewPrometheusRecorder(api.MajorMinorVersion(1, serverMinor))
+		early := []metricEvent{
+			{op: "CREATE", resource: "pods", kind: "eval", decision: "deny", level: "restricted", minor: -1, mode: "enforce"},
+			{op: "CREATE", resource: "pods", kind: "eval", decision: "allow", level: "privileged", minor: -1, mode: "enforce"},
+			{op: "CREATE", resource: "pods", kind: "exempt"},
+			{op: "UPDATE", group: "apps", resource: "deployments", kind: "exempt"},
+			{op: "CREATE", resource: "pods", kind: "error", fatal: true},
+		}
+		record := func(e metricEvent) {
+			switch e.kind {
+			case "exempt":
+				rec.RecordExemption(e.attrs())
+			case "error":
+				rec.RecordError(e.fatal, e.attrs())
+			default:
+				rec.RecordEvaluation(metrics.Decision(e.decision), mkLV(e.level, e.minor), metrics.Mode(e.mode), e.attrs())
+			}
+		}
+		for _, e := range early {
+			record(e)
+		}
+		reg := compbasemetrics.NewKubeRegistry()
+		rec.MustRegister(reg.MustRegister)
+		var late []metricEvent
+		for _, op := range []string{"CREATE", "UPDATE"} {
+			for _, res := range [][2]string{{"", "pods"}, {"apps", "deployments"}} {
+				for rep := 0; rep < 3; rep++ {
+					late = append(late, metricEvent{op: op, group: res[0], resource: res[1], kind: "eval", decision: "allow", level: "privileged", minor: -1, mode: "enforce"})
+					late = append(late, metricEvent{op: op, group: res[0], resource: res[1], kind: "exempt"})
+				}
+				late = append(late, metricEvent{op: op, group: res[0], resource: res[1], kind: "eval", decision: "deny", level: "restricted", minor: 25, mode: "enforce"})
+				late = append(late, metricEvent{op: op, group: res[0], resource: res[1], kind: "eval", decision: "deny", level: "baseline", minor: -1, mode: "warn"})
+				late = append(late, metricEvent{op: op, group: res[0], resource: res[1], kind: "error", fatal: false})
+			}
+		}
+		var all []J
+		for _, e := range late {
+			record(e)
+			all = append(all, e.json())
+		}
+		c.Eval(len(early) + len(late))
+		got, err := gather(reg)
+		if err != nil {
+			c.Violate(Finding{Desc: "gathering metrics failed: " + err.Error(), Key: "gather"})
+			return
+		}
+		out := c.Lean([]J{{"op": "metricCounts", "server": []int{1, serverMinor}, "events": all}})[0]
+		want := map[string]map[string]int{"pod_security_evaluations_total": leanCounts(out["evaluations"]), "pod_security_exemptions_total": leanCounts(out["exemptions"]), "pod_security_errors_total": leanCounts(out["errors"])}
+		for name, w := range want {
+			g := got[name]
+			if g == nil {
+				g = map[string]int{}
+			}
+			if canon(g) != canon(w) {
+				var diffs []string
+				for k, n := range w {
+					if g[k] != n {
+						diffs = append(diffs, fmt.Sprintf("%s: recorded %d, expected %d", k, g[k], n))
+					}
+				}
+				for k, n := range g {
+					if _, ok := w[k]; !ok {
+						diffs = append(diffs, fmt.Sprintf("%s: recorded %d, expected 0", k, n))
+					}
+				}
+				sort.Strings(diffs)
+				if len(diffs) > 5 {
+					diffs = diffs[:5]
+				}
+				c.Violate(Finding{Desc: fmt.Sprintf("%s: a recorder that had been used before it was registered does not count what is recorded after registration: %s", name, strings.Join(diffs, "; ")), Key: "record-before-register:" + name,
+					Input: J{"server": serverMinor, "recordedBeforeRegistration": len(early), "recordedAfterRegistration": all}})
+			}
+		}
+		c.Tag("c18.recordBeforeRegister")
+	}
+}
+
+// runGoPlain: the case once more with the evaluator handed to the controller exactly as policy.NewEvaluator returns it — not
+// inside the harness's recording wrapper, which hides whatever else the evaluator's type offers (optional interfaces a controller
+// may probe for). Only for cases that use the shipped checks and no injected expiry.
+func (a *AdmitCase) runGoPlain() (out AdmitOut) {
+	a.normalize()
+	rec := &recorder{}
+	lister := &fakeLister{pods: a.Pods, err: a.ListErr}
+	ctx, cancel := context.WithCancel(context.Background())
+	defer cancel()
+	a.cancelRequest = cancel
+	adm := newAdmission(a, realEvaluator, rec, lister)
+	defer func() {
+		if r := recover(); r != nil {
+			out.Panic = fmt.Sprint(r)
+		}
+	}()
+	return projectResponse(adm.Validate(ctx, a.attributes()), rec.ev, nil, lister)
+}
+
+// plainEvaluatorAgrees: what the controller answers must not depend on whether its evaluator is wrapped
+func plainEvaluatorAgrees(c *Ctx, a *AdmitCase, g AdmitOut) {
+	if a.Syn || a.ExpireAfter >= 0 || a.Remaining != 0 || a.CtxCancelled || a.Res == "namespaces" {
+		return
+	}
+	gp := a.runGoPlain()
+	c.Eval(1)
+	c.Tag("plainEvaluator.compared")
+	if d := diffAdmit(g, gp, "allowed code message warnings audit ann metrics"); len(d) > 0 {
+		c.Violate(Finding{Desc: "with the evaluator exactly as policy.NewEvaluator returns it (not wrapped), the controller answers differently: " + strings.Join(d, "; "), Key: "plain-evaluator-differs", Input: a.opJSON(),
+			Go: J{"wrapped": J{"allowed": g.Allowed, "warnings": g.Warnings, "audit": g.AnnAudit}, "plain": J{"allowed": gp.Allowed, "warnings": gp.Warnings, "audit": gp.AnnAudit}}})
+	}
 }
